@@ -611,6 +611,12 @@ func (w *World) deleteManifest(mr *MRepo, d string) {
 		if mr.isChildOfPresent(d) && mr.blobs[d] != nil {
 			mr.ghosts[d] = true
 		}
+		if sj := x.view.subject; sj != "" && (mr.blobDeleted[d] || mr.blobs[d] == nil || mr.blobs[d].maybeGone) {
+			if mr.staleRef[sj] == nil {
+				mr.staleRef[sj] = map[string]bool{}
+			}
+			mr.staleRef[sj][d] = true
+		}
 		for _, c := range x.view.children {
 			if _, ok := mr.mans[c]; ok {
 				mr.orphans[c] = "child of a deleted index"
@@ -978,6 +984,11 @@ func (w *World) opRefs(op Op) {
 	}
 	for d, g := range got {
 		x, present := mr.mans[d]
+		if !present && mr.staleRef[subj][d] {
+			w.x.viol([]string{"C07"}, "referrers.set", "extra entry [artifact deleted after its blob]", fmt.Sprintf("referrers of %s list %s, a manifest that was deleted after its blob had been removed through the blob endpoint", subj, d))
+			w.x.resync()
+			continue
+		}
 		if !present || x.view.subject != subj {
 			w.x.viol([]string{"C07"}, "referrers.set", "extra entry", fmt.Sprintf("referrers of %s list %s which is not a present manifest with that subject", subj, d))
 			continue
